@@ -1,6 +1,7 @@
 /* API of the compiled Decay0 reference library (libdecay0ref.so) */
 #ifndef REFAPI_H
 #define REFAPI_H
+#include <setjmp.h>
 #include <stddef.h>
 #ifdef __cplusplus
 extern "C" {
@@ -12,6 +13,7 @@ typedef struct { char name[REF_NAMELEN]; int n; double a[REF_MAXARGS]; } ref_eve
 void ref_set_script(const double * u, size_t n);
 size_t ref_script_pos(void);
 int ref_exhausted(void);
+void ref_arm_overrun(jmp_buf * jb); /* longjmp(*jb, 1) once the reference has asked for 2e6 deviates beyond its script */
 void ref_trace_clear(void);
 void ref_trace_enable(int on);
 size_t ref_trace_size(void);
